@@ -20,7 +20,7 @@
 (* when the second step fails the container stays alive WITHOUT a grant:   *)
 (* the named deviation `dropped` = F-C05-1.                                *)
 (***************************************************************************)
-EXTENDS TAPreds
+EXTENDS TAPreds, SequencesExt
 
 -----------------------------------------------------------------------------
 (* Part 2: the design *)
@@ -134,6 +134,49 @@ Next ==
 Spec == Init /\ [][Next]_tvars
 
 GrantsOf == [c \in DOMAIN grant |-> grant[c]]
+
+-----------------------------------------------------------------------------
+(* Re-instating grants after a (re)configuration: policy.reinstateGrants rebuilds the pools and calls               *)
+(* supply.Reserve for every saved grant, in map order, i.e. ANY order.  Reserve re-checks admission against the     *)
+(* partially rebuilt state.  If any Reserve fails, everything is released and re-allocated from scratch (containers *)
+(* may move: C13 "re-applying an unchanged configuration changes no container's resources").  The design question   *)
+(* TLC answers: does EVERY order succeed?  It does, unless a pool is starved (F-C03-1) -- and it no longer does when *)
+(* the admission test of Reserve is made strict (seeded change C13-m2: '<' -> '<=').                                *)
+CONSTANT StrictReserve          \* FALSE: the code as it is (fails iff allocatable < need); TRUE: fails iff allocatable <= need
+
+S0 == [fshar |-> Shar0, fisol |-> Isol0, gshar |-> [p \in Pool |-> 0], grsv |-> [p \in Pool |-> 0]]
+SubShared(S, p)   == Sum(LAMBDA q : S.gshar[q], SubOf(Tree, p))
+SubReserved(S, p) == Sum(LAMBDA q : S.grsv[q], SubOf(Tree, p))
+AllocShared(S, p) == Min({1000 * Cardinality(S.fshar[a]) - SubShared(S, a) : a \in {p} \cup AncOf(Tree, p)})
+AllocReserved(S, p) ==
+    IF Rsv0[p] = {} THEN -1 ELSE Min({1000 * Cardinality(Rsv0[a]) - SubReserved(S, a) : a \in {p} \cup AncOf(Tree, p)})
+\* supply.Reserve(g) on rebuilt state S: <<ok, S'>>
+ReserveOn(S, g) ==
+    LET p    == g.pool
+        ex   == g.excl \ g.isol
+        need == 1000 * Cardinality(ex) + g.portion
+    IN IF g.ctype = "normal"
+       THEN IF ~(g.isol \subseteq S.fisol[p]) \/ ~(ex \subseteq S.fshar[p])
+               \/ (IF StrictReserve THEN AllocShared(S, p) <= need ELSE AllocShared(S, p) < need)
+            THEN <<FALSE, S>>
+            ELSE <<TRUE, [S EXCEPT !.fshar = [q \in Pool |-> IF q \in RelOf(Tree, p) THEN S.fshar[q] \ ex ELSE S.fshar[q]],
+                                   !.fisol = [q \in Pool |-> IF q \in RelOf(Tree, p) THEN S.fisol[q] \ g.isol ELSE S.fisol[q]],
+                                   !.gshar[p] = @ + g.portion]>>
+       ELSE IF g.ctype = "reserved"
+       THEN IF g.portion > 0 /\ AllocReserved(S, p) < g.portion THEN <<FALSE, S>>
+            ELSE <<TRUE, [S EXCEPT !.grsv[p] = @ + g.portion]>>
+       ELSE <<TRUE, S>>                                                   \* cpu.preserve grants reserve nothing
+RECURSIVE ReinstateFrom(_, _)
+ReinstateFrom(S, order) ==
+    IF order = <<>> THEN TRUE
+    ELSE LET r == ReserveOn(S, grant[Head(order)]) IN r[1] /\ ReinstateFrom(r[2], Tail(order))
+ReinstatesInEveryOrder == \A order \in SetToSeqs(DOMAIN grant) : ReinstateFrom(S0, order)
+\* C13 at design level: an identical re-configuration re-instates every grant verbatim, whatever the map order,
+\* as long as no pool is starved (F-C03-1) and no update is half done
+Inv_ReinstateAnyOrder == (starved = {} /\ upd = <<>>) => ReinstatesInEveryOrder
+\* ... and WITH a starved pool some order fails: the root of F-C05-5 (an identical configuration is rejected or moves
+\* containers).  Stated as an invariant that TLC must refute.
+Inv_ReinstateAlways   == (upd = <<>>) => ReinstatesInEveryOrder
 
 \* design-level invariants
 TypeOK == /\ live \subseteq Ctr /\ dropped \subseteq live
